@@ -159,6 +159,8 @@ type request struct {
 	lines             [][]byte
 	u                 *user
 	b                 *board
+	sess              *session // non-nil: ptt.NewPost is called with this kept record
+	sessTok           string
 }
 
 func (q *request) has(c byte) bool { return strings.IndexByte(q.flags, c) >= 0 }
@@ -366,10 +368,18 @@ type userTok struct {
 	nick []byte
 }
 
+// a loaded user record kept under a session name (the caller's in-memory copy, possibly behind the stored one)
+type session struct {
+	userID []byte
+	uid    ptttype.UID
+	rec    *ptttype.UserecRaw
+}
+
 type histState struct {
-	n0      map[string]int // records per board at reset
-	users   map[string]userTok
-	started bool
+	n0       map[string]int // records per board at reset
+	users    map[string]userTok
+	sessions map[string]*session
+	started  bool
 }
 
 var H histState
@@ -460,7 +470,7 @@ func doReset(ws []string) (string, string) {
 		}
 	}
 	_ = os.Remove(env.Path(".post"))
-	H = histState{n0: n0, users: uts, started: true}
+	H = histState{n0: n0, users: uts, sessions: map[string]*session{}, started: true}
 	return "ok", "reset"
 }
 
@@ -494,6 +504,7 @@ type observed struct {
 	npAfter   int
 	logBefore []byte
 	logAfter  []byte
+	callerNpBefore int
 	reqCopy   *request // the request as it was before the call (the call may scribble on its arguments)
 }
 
@@ -524,6 +535,9 @@ func withFileLimit(limit int, f func()) {
 
 func callPost(q *request, limit int) (o *observed) {
 	o = &observed{reqCopy: cloneReq(q)}
+	if q.sess != nil {
+		o.callerNpBefore = int(q.sess.rec.NumPosts)
+	}
 	o.dirBefore = readDir(q.dirBoard)
 	o.xBefore = readDir("ALLPOST")
 	o.filesB = listDir(q.dirBoard)
@@ -543,7 +557,18 @@ func callPost(q *request, limit int) (o *observed) {
 	withFileLimit(limit, func() { o.out = hx.Call(func() string {
 		var s *bbs.ArticleSummary
 		var err error
-		if len(arg.from) == 0 {
+		if q.sess != nil {
+			// the ptt layer with the caller's own (possibly stale) user record; no reload
+			ipRaw := &ptttype.IPv4_t{}
+			copy(ipRaw[:], arg.ip)
+			boardIDRaw := &ptttype.BoardID_t{}
+			copy(boardIDRaw[:], q.dirBoard)
+			var raw *ptttype.ArticleSummaryRaw
+			raw, err = ptt.NewPost(q.sess.rec, q.sess.uid, boardIDRaw, ptttype.Bid(q.b.bid), class, title, arg.lines, ipRaw, arg.from)
+			if err == nil {
+				s = bbs.NewArticleSummaryFromRaw(bboardID, raw)
+			}
+		} else if len(arg.from) == 0 {
 			s, err = bbs.CreateArticle(uuserID, bboardID, class, title, arg.lines, string(arg.ip))
 		} else {
 			// bbs.CreateArticle has no `from` argument (fromd.GetFrom returns nil): call the layer below it
@@ -651,6 +676,9 @@ func canonicalFail(q *request, o *observed) string {
 // canonical line of a post; also returns the file name the new index entry carries.
 func canonical(q *request, o *observed) (string, string) {
 	st := stateLine(q)
+	if q.sess != nil {
+		st += fmt.Sprintf(" cnp=%d", q.sess.rec.NumPosts)
+	}
 	if o.out == "PANIC" || o.out == "TIMEOUT" {
 		return o.out + " " + st, ""
 	}
@@ -737,6 +765,40 @@ func do(line string) {
 			emit(line, out, label, true)
 			return
 		}
+	case "load":
+		if !H.started || len(ws) != 3 {
+			break
+		}
+		sn, ok1 := unhex(ws[1])
+		id, ok2 := unhex(ws[2])
+		if _, declared := H.users[string(id)]; ok1 && ok2 && declared {
+			uidRaw := &ptttype.UserID_t{}
+			copy(uidRaw[:], id)
+			uid, rec, err := ptt.InitCurrentUser(uidRaw)
+			if err != nil {
+				panic(err)
+			}
+			H.sessions[string(sn)] = &session{userID: id, uid: uid, rec: rec}
+			emit(line, fmt.Sprintf("ok np=%d", rec.NumPosts), "load", true)
+			return
+		}
+	case "postas":
+		if !H.started || len(ws) != 10 {
+			break
+		}
+		sn, ok1 := unhex(ws[1])
+		se := H.sessions[string(sn)]
+		if ok1 && se != nil {
+			q, ok := parsePost(append([]string{"post", ws[2], ws[3], hx.Hex(se.userID)}, ws[4:]...))
+			if ok {
+				q.sess, q.sessTok = se, ws[1]
+				o := callPost(q, 0)
+				out, name := canonical(q, o)
+				label := judgePost(opCount, q, o, name)
+				emit(line, out, "as:"+label, true)
+				return
+			}
+		}
 	case "postfail":
 		if !H.started || len(ws) != 11 {
 			break
@@ -806,6 +868,7 @@ func main() {
 		"with and without the announcement tag (also truncated tags); bodies of 0..30 lines over {printable, space, TAB, NUL, ESC, '[', digits, ';', ',', movement finals, 'm', 's', 0x80-0xFE}, with/without a trailing empty line; " +
 		"sequences of 2..12 posts to the same and to different boards; time, date, random suffix and Ctime text masked on both sides (format and range judged by the oracle). " +
 		"pure streams: ptt.StripANSIMoveCmd and cmsys.Trim on enumerated short strings (all strings up to length 4 over a 7-symbol alphabet) and random lines. " +
+		"sessions: the same user loaded as two or three independent records (`load`) before posting through them (`postas` = ptt.NewPost with the kept, possibly stale record), interleaved with bbs.CreateArticle posts of the same user. " +
 		"write failures: posts whose article file may not grow beyond a limit (RLIMIT_FSIZE): the request must fail and leave index, totals, counters untouched. " +
 		"malformed stream: refused (user, board) pairs, a board id whose name and number disagree, unknown directory, ill-formed op lines. " +
 		"nontrivial = reached the real function"
